@@ -100,6 +100,10 @@ func run(r *mon.Run) {
 				"https://example.com:443/", "https://example.com/a/../b/./c", "https://example.com/?", "https://example.com/\"quoted\"", "https://example.com/\u65e5\u672c?q=\u00e9"})
 		}
 		spec.ValidityURL = pathOfLen(g, "https://example.com/v/", vurlLen)
+		if i%11 == 5 {
+			// characters the quoted Signature-header string has to escape, several times over and at both ends
+			spec.ValidityURL = "https://example.com/resource.validity" + mon.Pick(g, []string{"?tag=\"v1\"", "?a=\\\\", "?p=\\\"\\\"", "?\"\"\"", "?dir=C:\\x\\y\\", "?q=\"a\"&r=\"b\"", "?\\\"", "?end=\"\""})
+		}
 		if ver != version.Version1b3 {
 			spec.Method = mon.Pick(g, []string{"GET", "HEAD", "POST", "PUT", "get", ""})
 		}
